@@ -252,12 +252,42 @@ def oracle(files: Dict[str, str], refine: bool = False, variants: Optional[List[
     nt, ntv = ob["p_tv"].shape
     p_req = requested_grid(st)
     K = tvdata.gpa_in_au()
+    # --- the relation must survive the calculation's own output step: write the (T,V) pressure table and the (T,P) volume table
+    #     (the two tables that are qha's cached arrays), then read again; every read must return what it returned before
+    try:
+        import tempfile, shutil, os as _os
+        d = tempfile.mkdtemp(prefix="c06w_"); cwd = _os.getcwd()
+        try:
+            _os.chdir(d)
+            with tvdata.quiet():
+                run.calc.volume_base.write_variables(["p"])
+                run.calc.pressure_base.write_variables(["v"])
+        finally:
+            _os.chdir(cwd); shutil.rmtree(d, ignore_errors=True)
+        with tvdata.quiet():
+            vb, pb = run.calc.volume_base, run.calc.pressure_base
+            k0 = list(run.calc.modulus_keys)[0]
+            again = {"volume_base.pressures": (numpy.array(vb.pressures), ob["p_tv"]),
+                     "pressure_base.volumes": (numpy.array(pb.volumes), ob["prs"]["volumes"]),
+                     "pressure_base.v2p(volume_base.pressures)": (numpy.array(pb.v2p(vb.pressures)), ob["v2p_of_p"]),
+                     "pressure_base.modulus_adiabatic[%s]" % kstr(k0.v): (numpy.array(pb.modulus_adiabatic[k0]), ob["mod_prs"]["adiabatic"][tuple(k0.v)]),
+                     "pressure_base.bulk_modulus_voigt_reuss_hill": (numpy.array(pb.bulk_modulus_voigt_reuss_hill), ob["prs"]["bulk_modulus_voigt_reuss_hill"])}
+        for n, (a, b) in again.items():
+            if a.shape != b.shape or not numpy.array_equal(a, b, equal_nan=True):
+                fail("stable_after_write", {"quantity": n, "after": a.reshape(len(a), -1)[-1, :3]}, {"before": b.reshape(len(b), -1)[-1, :3]}, what=n)
+                break
+    except Exception as e:
+        fail("stable_after_write", f"{type(e).__name__}: {e}", "tables are written and quantities can be read again")
     # quantifier: requested pressures inside the computed range at every temperature, pressures increasing
     if not (numpy.all(numpy.diff(ob["p_tv"], axis=1) > 0) and ob["p_tv"][:, 0].max() <= p_req.min()
             and ob["p_tv"][:, -1].min() > p_req.max()):
         return [{"check": "outside_quantifier", "what": None, "observed": None, "expected": None, "variant": None}]
     # --- the target grid
-    if ob["p_array"].shape != p_req.shape or not family_close(ob["p_array"], p_req, rtol=1e-11)[0]:
+    if ob["p_array"].shape != p_req.shape:
+        fail("target_grid", {"points": int(ob["p_array"].size), "last": ob["p_array"][-2:]}, {"points": int(p_req.size), "last": p_req[-2:]},
+             what="number of pressures on the (T,P) grid")
+        return fails                                   # nothing below is comparable on a grid of another size
+    if not family_close(ob["p_array"], p_req, rtol=1e-11)[0]:
         fail("target_grid", ob["p_array"][:4], p_req[:4])
     # --- converting the pressure field returns the requested pressures
     exp = numpy.repeat(p_req[None, :], nt, axis=0)
@@ -359,6 +389,17 @@ def make_variants(rng: numpy.random.Generator, st: dict, p_last_gpa: float, p_la
 
 
 # ----------------------------------------------------------------------------- cases
+def decimal_grid(rng) -> dict:
+    cands = []
+    for dp in (0.1, 0.2, 0.3, 0.7, 1.1, 0.05):
+        for pm in (0.0, 0.3, 1.0):
+            for n in range(8, 41):
+                if pm + n * dp < 12.0 and len(numpy.arange(pm, pm + n * dp, dp)) != n:
+                    cands.append((pm, dp, n))
+    pm, dp, n = cands[int(rng.integers(len(cands)))]
+    return {"P_MIN": pm, "DELTA_P": dp, "NTV": n}
+
+
 def run_cases(ctx: Ctx, res: Result, n_cases: int, small: bool, budget_s: float):
     t0 = time.time()
     dist = res.distribution
@@ -374,6 +415,10 @@ def run_cases(ctx: Ctx, res: Result, n_cases: int, small: bool, budget_s: float)
             res.notes.append(f"stopped after {res.evaluations} cases (time budget)"); break
         sub = numpy.random.Generator(numpy.random.PCG64(int(ctx.rng.integers(0, 2 ** 62))))
         force = {"system": opts[i % len(opts)]} if i < len(opts) else {}
+        if i % 5 == 2:
+            # decimal pressure steps with NTV chosen where P_MIN + NTV*DELTA_P is not exactly representable: a grid rebuilt with
+            # floating-point `arange(start, start + n*step, step)` gains or loses a point exactly here
+            force.update(decimal_grid(sub))
         ds, desc = tvdata.draw_case(sub, small=small, force=force)
         files = tvdata.case_files(ds)
         label = {k: desc[k] for k in ("system", "lattice", "nv", "nq", "na", "NT", "DT", "NTV", "volume_ratio", "P_MIN", "DELTA_P")}
